@@ -64,7 +64,8 @@
                                                             C07_s_insert_lawful
         (and it panics exactly when absent and full, leaving the container untouched; the
          rejected element, a local of the unwinding frame, is destroyed exactly once: the log
-         grows by exactly its EvDrop events — same panic clause in C07_s_replace_lawful)
+         grows by exactly its EvDrop events, the () value's (none for Set) before the element's: the two
+         arguments are destroyed in reverse declaration order — same panic clause in C07_s_replace_lawful)
      "remove/take/contains/get report presence truthfully" C07_s_remove_lawful, C07_s_take_lawful,
                                                             C07_s_contains_lawful, C07_s_get_lawful
         (each method computes the list-machine function on elems; they are the per-method
@@ -124,7 +125,7 @@ Theorem C07_s_insert_lawful :
             (find_idx ck (ck k) (Spec.elems (self w)) = None -> len (self w) < cap (self w)))
          (fun w' : world K unit T =>
             self w' = self w /\
-            logged w w' (ev_drops (idK E k ++ idV E tt)) /\
+            logged w w' (ev_drops (idV E tt ++ idK E k)) /\
             find_idx ck (ck k) (Spec.elems (self w)) = None /\
             len (self w) = cap (self w))
          w.
@@ -150,7 +151,7 @@ Theorem C07_s_replace_lawful :
             (find_idx ck (ck k) (Spec.elems (self w)) = None -> len (self w) < cap (self w)))
          (fun w' : world K unit T =>
             self w' = self w /\
-            logged w w' (ev_drops (idK E k ++ idV E tt)) /\
+            logged w w' (ev_drops (idV E tt ++ idK E k)) /\
             find_idx ck (ck k) (Spec.elems (self w)) = None /\
             len (self w) = cap (self w))
          w.
